@@ -58,6 +58,18 @@ func (g *gen) astValidAxioms(key, name, sort string) {
 	tf := parts[0] + "." + parts[1]
 	n := g.freshName("av")
 	g.assumed["theory ast-valid: "+tf] = true
+	if g.sweepFrames != "" {
+		g.declareFun("private", []string{"Int"}, "Bool")
+		pn := g.freshName("pv")
+		switch sort {
+		case arr("Int", "Int"):
+			g.assumeGlobal(fmt.Sprintf("(forall ((%s Int)) (! (=> (private %s) (private (select %s %s))) :pattern ((select %s %s))))", pn, pn, name, pn, name, pn))
+		case arr("Int", "Iface"):
+			g.assumeGlobal(fmt.Sprintf("(forall ((%s Int)) (! (=> (private %s) (private (i_val (select %s %s)))) :pattern ((select %s %s))))", pn, pn, name, pn, name, pn))
+		case arr("Int", "Slice"):
+			g.assumeGlobal(fmt.Sprintf("(forall ((%s Int)) (! (=> (private %s) (private (s_base (select %s %s)))) :pattern ((select %s %s))))", pn, pn, name, pn, name, pn))
+		}
+	}
 	switch {
 	case sort == arr("Int", "Int"):
 		if !astNilable[tf] {
